@@ -1,16 +1,21 @@
 #!/bin/bash
-# usage: tools/run_seeded.sh <ID> <variant-dir> [tier]   — apply a seeded change to /repo, run the check, undo.
+# usage: tools/run_seeded.sh <ID> <variant-dir> [tier]
+# Applies a seeded change to a scratch worktree of /repo's HEAD (never to /repo), runs the check against it
+# (VERIF_REPO), removes the worktree. Evidence/replays of such runs go to a scratch copy of /verif outputs.
 ID=$1; DIR=$2; TIER=${3:-quick}
-cd /repo || exit 9
-if [ -n "$(git status --porcelain -- pyglove)" ]; then echo "repo dirty"; exit 9; fi
+NAME=$(basename $(dirname $DIR))_$(basename $DIR)
+WT=/tmp/seedwt/$NAME.$$
+mkdir -p /tmp/seedwt
+git -C /repo worktree add -q --detach "$WT" HEAD || exit 9
+cd "$WT"
 if ! git apply "$DIR/patch.diff" 2>/dev/null; then
-  patch -p1 -s --no-backup-if-mismatch < "$DIR/patch.diff" || { echo "PATCH-FAILED"; git checkout -- .; exit 8; }
+  patch -p1 -s --no-backup-if-mismatch < "$DIR/patch.diff" || { echo "seeded $ID $NAME: PATCH-FAILED"; cd /; git -C /repo worktree remove --force "$WT"; exit 8; }
 fi
+OUT=/tmp/seedwt/out.$NAME.$$; mkdir -p $OUT
 cd /verif
-timeout 3600 ./check "$ID" --tier "$TIER" > "/tmp/seeded_${ID}_$(basename $DIR).log" 2>&1
+VERIF_REPO="$WT" VERIF_OUT="$OUT" timeout 3600 ./check "$ID" --tier "$TIER" > "/tmp/seeded_${ID}_${NAME}.log" 2>&1
 rc=$?
-git -C /repo checkout -- . ; git -C /repo clean -fdq -- pyglove
-echo "seeded $ID $(basename $DIR): exit=$rc $(grep -c '^VIOLATION' /tmp/seeded_${ID}_$(basename $DIR).log) violation line(s)"
-grep -E "^VIOLATION|counterexample|HARNESS-ERROR" "/tmp/seeded_${ID}_$(basename $DIR).log" | cut -c1-300 | head -8
-git -C /verif checkout -- evidence 2>/dev/null
+git -C /repo worktree remove --force "$WT"; rm -rf "$OUT"
+echo "seeded $ID $NAME: exit=$rc $(grep -c '^VIOLATION' /tmp/seeded_${ID}_${NAME}.log) violation line(s)"
+grep -E "counterexample|HARNESS-ERROR" "/tmp/seeded_${ID}_${NAME}.log" | cut -c1-260 | head -6
 exit $rc
